@@ -23,6 +23,7 @@ oracle for inputs TLC cannot hold in 32-bit integers: geometric weight vectors 2
 2^996 (~1e300), lengths up to 1e4, and seeded random skewed integer vectors.
 """
 import itertools
+import json
 import math
 import multiprocessing as mp
 import os
@@ -629,6 +630,257 @@ def do_replay(ck, path):
     ck.finish({"states": 0, "transitions": 0, "traces_validated_against_impl": 1})
 
 
+# =============================================================================================
+# Volume-variation clause: specs/VolVar.tla (exact rationals on an integer lattice) + scale family
+# =============================================================================================
+VV_CFG = """INIT Init
+NEXT Next
+CONSTANTS
+  Dims = {dims}
+  NMin = {nmin}
+  NMax = {nmax}
+  CMin = {cmin}
+  CMax = {cmax}
+  WMin = {wmin}
+  WMax = {wmax}
+  Variant = "{variant}"
+{invs}
+CHECK_DEADLOCK FALSE
+"""
+VV_INVS = ["TypeOK", "NonNegative", "DegenerateIff", "InvWeightScale", "InvPermute", "InvTranslate", "InvLinear",
+           "InvAffine", "MeanDevZero", "OnePassEqual"]
+# seeded wrong definitions and the invariant by which TLC must refute each of them
+VV_WRONG = {"nocentre": "InvTranslate", "unnormcov": "InvWeightScale", "dminus1": "MeanDevZero"}
+
+# Acceptance thresholds for |got - want| / max(want, omega), omega = 0.5 n_dim sqrt(sum p_i^2) (the size of the terms
+# before the cancellation d2 - n_dim).  Decided from the property's quantifier (affine maps with condition number up to
+# 1e6; any weight scale) as >= 100 x the worst error the pinned implementation shows on the whole thorough family under
+# several seeds, and never above 1e-5.  The measured worst errors are recorded in the evidence on every run.
+VV_TOL = {
+    "base": 1e-9, "perm": 1e-9, "w*2^-996": 1e-9, "w*2^996": 1e-9,
+    "iso*2^-20": 1e-9, "iso*2^20": 1e-9, "aniso(1,2^-20)": 1e-9, "aniso(2^10,2^-10)": 1e-9,
+    "rot(.5,.75)": 1e-9, "shear(.375)": 1e-9,
+    "shift1e3": 1e-9, "shift1e6": 1e-7, "shift1e8": 1e-5,
+    "aniso(1,2^-20)+shift1e6": 1e-7,
+    "rot*aniso(2^5,2^-5)": 1e-7, "scale*-3*2^20": 1e-9,
+}
+# reported only (conditioning of a rotated 1e6-anisotropic cloud: cond(cov) ~ 1e12): measured, never judged
+VV_INFO_ONLY = ("rot*aniso(2^10,2^-10)",)
+
+
+def vv_family(np, x, w, rng):
+    """(name, x', w') : exact affine images of the integer instance (all entries dyadic, exactly representable)."""
+    n, d = x.shape
+    spread = float(max(1.0, np.max(np.ptp(x, axis=0))))
+    out = [("base", x, w)]
+    p = rng.permutation(n)
+    out.append(("perm", x[p], w[p]))
+    out.append(("w*2^-996", x, w * 2.0 ** -996))
+    out.append(("w*2^996", x, w * 2.0 ** 996))
+    out.append(("iso*2^-20", x * 2.0 ** -20, w))
+    out.append(("iso*2^20", x * 2.0 ** 20, w))
+    dirs = ([1.0], [-1.0]) if d == 1 else ([1.0, 0.0], [0.0, -1.0], [1.0, 1.0])
+    for t, nm in ((1e3, "shift1e3"), (1e6, "shift1e6"), (1e8, "shift1e8")):
+        for dr in dirs:
+            out.append((nm, x + t * spread * np.array(dr), w))
+    if d == 2:
+        R = np.array([[0.5, -0.75], [0.75, 0.5]])
+        out.append(("aniso(1,2^-20)", x * np.array([1.0, 2.0 ** -20]), w))
+        out.append(("aniso(2^10,2^-10)", x * np.array([2.0 ** 10, 2.0 ** -10]), w))
+        out.append(("rot(.5,.75)", x @ R.T, w))
+        out.append(("shear(.375)", x @ np.array([[1.0, 0.375], [0.0, 1.0]]).T, w))
+        out.append(("aniso(1,2^-20)+shift1e6", x * np.array([1.0, 2.0 ** -20]) + 1e6 * spread * np.array([1.0, 2.0 ** -20]), w))
+        out.append(("rot*aniso(2^5,2^-5)", (x * np.array([2.0 ** 5, 2.0 ** -5])) @ R.T, w))
+        out.append(("rot*aniso(2^10,2^-10)", (x * np.array([2.0 ** 10, 2.0 ** -10])) @ R.T, w))
+    else:
+        out.append(("scale*-3*2^20", x * -3.0 * 2.0 ** 20, w))
+    return out
+
+
+def vv_worker(job):
+    """job: list of (pts, wts, st, roots) from the TLC dump; returns worst errors per family member and failures."""
+    insts, seed = job
+    np, tools = _W["np"], _W["tools"]
+    rng = np.random.RandomState(seed)
+    r = {"ok": 0, "singular": 0, "guard": 0, "evals": 0, "worst": {}, "viol": [], "nontrivial": 0}
+    for pts, wts, st, roots in insts:
+        x = np.array(pts, dtype=float)
+        w = np.array(wts, dtype=float)
+        n, d = x.shape
+        r[st] += 1
+        if st == "ok":
+            cv2 = sum(Fraction(a, b) ** 2 for a, b in roots)
+            want = math.sqrt(cv2)
+            sw = sum(wts)
+            omega = 0.5 * d * math.sqrt(sum(Fraction(v, sw) ** 2 for v in wts))
+            r["nontrivial"] += int(cv2 > 0)
+        for name, x2, w2 in vv_family(np, x, w, rng):
+            try:
+                with np.errstate(all="ignore"):
+                    got = float(tools.volume_variation(x2.copy(), w2.copy()))
+            except Exception as ex:
+                r["viol"].append(("volvar:raised", f"volume_variation raised {ex!r} ({name})",
+                                  {"kind": "volvar", "pts": pts, "wts": wts, "member": name}))
+                continue
+            r["evals"] += 1
+            if st == "guard":
+                if got != 1e10:
+                    r["viol"].append(("volvar:guard", f"n < d+1 but volume_variation = {got!r} ({name})",
+                                      {"kind": "volvar", "pts": pts, "wts": wts, "member": name}))
+                continue
+            if not (math.isfinite(got) and got >= 0):
+                r["viol"].append(("volvar:not_nonnegative", f"volume_variation = {got!r} ({name}, {st})",
+                                  {"kind": "volvar", "pts": pts, "wts": wts, "member": name}))
+                continue
+            if st != "ok":
+                continue
+            err = abs(got - want) / max(want, omega)
+            if err > r["worst"].get(name, (-1.0,))[0]:
+                r["worst"][name] = (err, pts, wts, got, want)
+            if name not in VV_INFO_ONLY and err > VV_TOL[name]:
+                if len(r["viol"]) < 40:
+                    r["viol"].append(("volvar:invariance:" + name.split("1e")[0].split("(")[0].split("*")[0],
+                                      f"volume_variation = {got!r} on the image '{name}' of an instance whose exact value is "
+                                      f"{want!r} (error {err:.3g} > {VV_TOL[name]:g})",
+                                      {"kind": "volvar", "pts": pts, "wts": wts, "member": name, "got": got, "want": want}))
+                else:
+                    r["viol"].append(("volvar:invariance:more", "further invariance failures", {}))
+        if st == "ok" and not r.get("sample") and n == 4 and d == 2 and cv2 > 0:
+            r["sample"] = {"volvar_instance": {"pts": pts, "wts": wts}, "roots": roots, "CV2": str(cv2), "cv": want}
+    return r
+
+
+def volvar_tlc(tier):
+    """TLC runs on VolVar.tla (thread-safe: subprocesses and dump parsing only).  Returns the data for volvar_replay.
+    The intended definition on the enumeration domains, a statement-coverage run, and three wrong definitions that
+    TLC must refute.  A 32-bit overflow inside TLC is a TLCFailure (exit 2), never a silent wrap-around."""
+    quick = tier == "quick"
+    if quick:
+        doms = {
+            "V1": dict(dims=[1, 2], nmin=2, nmax=3, cmin=0, cmax=2, wmin=1, wmax=2),
+            "V2": dict(dims=[2], nmin=4, nmax=4, cmin=0, cmax=2, wmin=1, wmax=1),
+        }
+    else:
+        doms = {
+            "V1": dict(dims=[1, 2], nmin=2, nmax=4, cmin=0, cmax=2, wmin=1, wmax=3),
+            "V2": dict(dims=[2], nmin=4, nmax=4, cmin=0, cmax=3, wmin=1, wmax=1),
+            "V3": dict(dims=[2], nmin=3, nmax=3, cmin=0, cmax=3, wmin=1, wmax=3),
+        }
+    tiny = dict(dims=[2], nmin=3, nmax=3, cmin=0, cmax=1, wmin=1, wmax=2)
+    # TLC's -coverage builds a cost model per call site of every (deeply nested) operator and switches off the caching
+    # of LET definitions: on this module it costs a fixed ~25-40 s whatever the domain (measured: 37 initial states,
+    # 2 s without, 40 s with).  The statement-coverage run therefore uses the smallest domain in which every action
+    # fires; on the enumeration domains the action counts are measured exactly from the dump (res.st names the action).
+    covdom = dict(dims=[1, 2], nmin=2, nmax=3, cmin=0, cmax=1, wmin=1, wmax=1)
+
+    def cfg(c, variant, invs):
+        return VV_CFG.format(dims=setfmt(c["dims"]), nmin=c["nmin"], nmax=c["nmax"], cmin=c["cmin"], cmax=c["cmax"],
+                             wmin=c["wmin"], wmax=c["wmax"], variant=variant, invs="\n".join("INVARIANT " + i for i in invs))
+
+    t0 = time.time()
+    runs = {}
+    try:
+        with ThreadPoolExecutor(8) as ex:
+            futs = {k: ex.submit(tlc.run_tlc, "VolVar", cfg(c, "code", VV_INVS), dump=True, coverage=False, workers=8)
+                    for k, c in doms.items()}
+            futs["cov"] = ex.submit(tlc.run_tlc, "VolVar", cfg(covdom, "code", ["TypeOK"]), coverage=True, workers=2)
+            for v, inv in VV_WRONG.items():
+                futs["wrong:" + v] = ex.submit(tlc.run_tlc, "VolVar", cfg(tiny, v, [inv]), workers=2)
+            errs = []
+            for k, fu in futs.items():
+                try:
+                    runs[k] = fu.result()
+                except Exception as ex_:
+                    errs.append(ex_)
+            if errs:
+                raise errs[0]
+        rcov = runs["cov"]
+        if rcov.status != "ok":
+            raise RuntimeError(f"VolVar coverage run: {rcov.status} {rcov.violated}")
+        cov_actions = {a: list(rcov.coverage.get(a, (0, 0))) for a in ("Init", "Guard", "Regularise", "Evaluate")}
+        if any(v[1] <= 0 for v in cov_actions.values()):
+            raise RuntimeError(f"vacuity: VolVar action with zero TLC coverage: {cov_actions}")
+        cov_info = {"constants": covdom, "states": rcov.distinct, "tlc_action_coverage": cov_actions}
+        ctrl = {}
+        for v, inv in VV_WRONG.items():
+            res = runs["wrong:" + v]
+            ctrl[v] = {"expected_violation": inv, "tlc_status": res.status, "violated": res.violated}
+            if not (res.status == "violation" and res.violated == inv):
+                raise RuntimeError(f"VolVar negative control: variant {v} should violate {inv}: {ctrl[v]}")
+        states = trans = 0
+        insts, fam, spec_viol = [], {}, []
+        for k in doms:
+            res = runs[k]
+            states += res.distinct
+            trans += res.generated
+            if res.status != "ok":
+                spec_viol.append(("spec:volvar:" + res.violated, f"TLC: {res.violated} violated on VolVar.tla ({k})", {"trace": res.error_trace}))
+                continue
+            nd = 0
+            acts = {"Init": 0, "Guard": 0, "Regularise": 0, "Evaluate": 0}
+            for st in res.states():
+                if st["pc"] != "done":
+                    acts["Init"] += 1
+                    continue
+                nd += 1
+                acts[{"guard": "Guard", "singular": "Regularise", "ok": "Evaluate"}[st["res"]["st"]]] += 1
+                insts.append((st["pts"], st["wts"], st["res"]["st"], st["res"]["roots"]))
+            need = ["Init", "Regularise", "Evaluate"] + (["Guard"] if doms[k]["nmin"] < max(doms[k]["dims"]) + 1 else [])
+            if any(acts[a] <= 0 for a in need) or acts["Init"] != nd:
+                raise RuntimeError(f"vacuity: VolVar run {k} action counts {acts}")
+            fam[k] = {"constants": doms[k], "tlc_distinct": res.distinct, "tlc_generated": res.generated, "instances": nd,
+                      "tlc_wall_s": round(res.wall_s, 1), "action_counts_from_dump": acts}
+        return {"states": states, "transitions": trans, "insts": insts, "runs": fam, "ctrl": ctrl, "cov": cov_info,
+                "spec_viol": spec_viol, "tlc_wall_s": round(time.time() - t0, 1)}
+    finally:
+        for res_ in runs.values():
+            res_.cleanup()
+
+
+def volvar_replay(ck, pool, data):
+    """Every enumerated instance through tools.volume_variation and through the scale family (workers of `pool`)."""
+    t0 = time.time()
+    for key_, what, rp in data["spec_viol"]:
+        ck.violation(key_, what, rp)
+    insts = data["insts"]
+    agg = {"ok": 0, "singular": 0, "guard": 0, "evals": 0, "nontrivial": 0}
+    worst = {}
+    if not data["spec_viol"]:
+        chunk = max(1, len(insts) // 256 + 1)
+        jobs = [(insts[i:i + chunk], ck.seed * 1000003 + i) for i in range(0, len(insts), chunk)]
+        for r in pool.imap_unordered(vv_worker, jobs):
+            for k in agg:
+                agg[k] += r[k]
+            for name, rec in r["worst"].items():
+                if rec[0] > worst.get(name, (-1.0,))[0]:
+                    worst[name] = rec
+            for key_, what, rp in r["viol"]:
+                ck.violation(key_, what, rp)
+            if r.get("sample"):
+                ck.sample(r["sample"], limit=7)
+    return {
+        "states": data["states"], "transitions": data["transitions"], "instances": len(insts),
+        "nondegenerate_replayed": agg["ok"], "regularised_instances": agg["singular"], "guard_instances": agg["guard"],
+        "evaluations": agg["evals"], "nontrivial_cv_positive": agg["nontrivial"], "runs": data["runs"],
+        "tlc_coverage_run": data["cov"], "wrong_variants_refuted_by_tlc": data["ctrl"], "tolerances": VV_TOL,
+        "worst_observed_error": {n: {"err": float(f"{rec[0]:.3g}"), "pts": rec[1], "wts": rec[2]} for n, rec in sorted(worst.items())},
+        "info_only_members": list(VV_INFO_ONLY),
+        "error_metric": "|got - sqrt(CV2)| / max(sqrt(CV2), 0.5 n_dim sqrt(sum p_i^2))",
+        "wall_s": {"tlc_concurrent_with_trim_runs": data["tlc_wall_s"], "replay": round(time.time() - t0, 1)},
+    }
+
+
+def volvar_part(ck):
+    """Stand-alone driver (C20_PART=volvar); main() overlaps volvar_tlc with the Trim.tla runs instead."""
+    data = volvar_tlc(ck.tier)
+    pool = mp.get_context("fork").Pool(16, initializer=_worker_init)
+    try:
+        return volvar_replay(ck, pool, data)
+    finally:
+        pool.terminate()
+        pool.join()
+
+
 def main():
     ck = core.Check("C20", "model_checking")
     if ck.args.selftest:
@@ -639,6 +891,12 @@ def main():
     import numpy as np
     from tempest import tools
 
+    if os.environ.get("C20_PART") == "volvar":  # development aid: the volume-variation part alone, never writes evidence
+        ck.args.no_evidence = True
+        vv = volvar_part(ck)
+        print(json.dumps({k: vv[k] for k in ("worst_observed_error", "wall_s", "instances", "nondegenerate_replayed", "evaluations") if k in vv}, default=str))
+        ck.finish({"states": vv.get("states", 0), "transitions": vv.get("transitions", 0),
+                   "traces_validated_against_impl": vv.get("nondegenerate_replayed", 0), "volume_variation": vv})
     quick = ck.tier == "quick"
     ess = [30, 60, 90, 99]
     if quick:
@@ -665,6 +923,8 @@ def main():
     results = {}
     phase = {}
     t_ph = time.time()
+    vv_ex = ThreadPoolExecutor(1)
+    vv_fut = vv_ex.submit(volvar_tlc, ck.tier)   # VolVar.tla runs overlap the Trim.tla runs (subprocesses only)
     try:
         # the independent input enumeration runs in the pool while TLC runs
         count_jobs = {}
@@ -805,9 +1065,13 @@ def main():
             if r["replayed"] and r["label"].startswith("geo:N=100") and len(ck.samples) < 6:
                 ck.sample({"big_case": r["label"], "kept": r["kept"], "loop_index_at_break": r["i"]})
         phase['beyond_tlc_inputs'] = round(time.time() - t_ph, 1)
+        t_ph = time.time()
+        vv = volvar_replay(ck, pool, vv_fut.result())
+        phase['volume_variation_wait_and_replay'] = round(time.time() - t_ph, 1)
     finally:
         pool.terminate()
         pool.join()
+        vv_ex.shutdown(wait=True)
         for res_ in results.values():  # idempotent; keeps nothing under /tmp on any exit path
             res_.cleanup()
 
@@ -877,11 +1141,11 @@ def main():
         "volume_variation: monitoring only; affine/rescaling invariance is not addressed by this technique",
     ]
     ck.finish({
-        "states": tot_states,
-        "transitions": tot_trans,
-        "traces_validated_against_impl": agg["replayed"] + bigagg["replayed"],
-        "evaluations": agg["evals"] + bigagg["evals"],
-        "distinct_nontrivial": agg["nontrivial"] + bigagg["nontrivial"],
+        "states": tot_states + vv.get("states", 0),
+        "transitions": tot_trans + vv.get("transitions", 0),
+        "traces_validated_against_impl": agg["replayed"] + bigagg["replayed"] + vv.get("nondegenerate_replayed", 0),
+        "evaluations": agg["evals"] + bigagg["evals"] + vv.get("evaluations", 0),
+        "distinct_nontrivial": agg["nontrivial"] + bigagg["nontrivial"] + vv.get("nontrivial_cv_positive", 0),
         "rule": "one behaviour per (w, bins, ess); non-trivial = the accepted mask is a proper subset of the samples "
                 "(something is trimmed); each un-flagged terminal state is replayed into trim_weights at 3 scales "
                 "(ids as samples; at scale 1 and the smallest ess also 2-column tagged rows); each enumerated vector goes through "
@@ -904,6 +1168,7 @@ def main():
         "beyond_tlc_inputs": bigagg,
         "spec_negative_control": ctrl_info,
         "information_only": info,
+        "volume_variation": vv,
         "monitoring_only_volume_variation": mon,
         "trim_calls": n_trim_calls,
         "phase_wall_s": phase,
